@@ -16,7 +16,7 @@ LEVEL_TEXT = ('Lean 4 theorems, for all shapes/offsets/data and any number of ov
               '_mul_pixelscale (regenerated from plane.py on every run) refuses exactly the defined-and-different pairs, independently of the unit of length; the phase argument, the metadata hand-over of Plane/Pupil/Image.multiply and the wiring of the three views (which goes through reduce, intensity flag, weight) are regenerated from the source and consumed by the model; insert/intensity of the model always return (C06 reduce_defined; the code additionally hits the Python recursion limit in _disjoint at about 1000 mutually overlapping fields). The array plumbing '
               'is a hand model checked against the implementation on exact and floating-point data.')
 LEVEL_NOTE = ('Partial: (1) fields/segments with exactly one element are excluded by hypothesis (lentil treats every size-1 array as a '
-              'broadcastable scalar; open known finding KF-C07-one-pixel-segment, which includes one-sample fields off centre under a default plane); '
+              'broadcastable scalar; open known finding KF-C07-one-pixel-segment, which includes one-sample fields off centre under a default plane; not repaired because C06 as given makes a (1,1) array a broadcastable constant: the two properties conflict on that input and the code follows C06); '
               '(2) chains that interleave planes and propagations are covered step by step by theorems and as a whole by correspondence and oracle only; '
               '(3) views on shape-() / zero-dimensional data are oracle-only; (4) multiply overrides other than Plane/Pupil/Image/Tilt are not exercised. Trusted: Lean kernel, py2lean subset '
               'semantics, NumPy slicing/broadcast/exp semantics as modelled, generator coverage of the correspondence.')
@@ -44,8 +44,7 @@ UNPROVEN = ['fields and segment phasors with exactly one element are outside the
             'Rotate/Flip.multiply raise AttributeError (open known finding of C08)',
             'the plane-type admission test of Plane.multiply (C08) and tilt bookkeeping (C04) are not part of this model',
             'the constructor\'s mask normalisation (mask != 0, mask=None -> amplitude) is applied by the harness before the model sees the plane (Plane.__init__ is pinned)']
-ASSUMPTIONS = ['3-D masks have at least two layers: a 3-D mask with a single layer makes Plane.multiply raise ValueError on the unchanged tree (reported with a candidate fix; single-layer cases are parked on branch wC-single-layer)',
-               'accumulation targets of Wavefront.insert are float64 arrays (an int64 target raises NumPy\'s casting error, float32 rounds)',
+ASSUMPTIONS = ['accumulation targets of Wavefront.insert are float64 arrays (an int64 target raises NumPy\'s casting error, float32 rounds)',
                'fewer than about 990 mutually overlapping fields (Python recursion limit in field._disjoint)',
                'every segment bounding box and every intermediate field that is multiplied by a further plane has more than one element (a propagation window of a single output sample is generated: the views of one-element fields are defined since the repo fix of _merge_shape)',
                'attribute arrays have the shape of the mask (otherwise NumPy raises or broadcasts; malformed input)']
@@ -126,8 +125,9 @@ def _plane(rng, mode, shape, kind, force=None):
                     if not _ok_layer(M): continue
                     layers = [M]
                 elif t == '3d':
-                    k = int(rng.integers(2, 6))
-                    layers = partition(rng, M, k, interleave=bool(rng.integers(0, 2)))
+                    k = int(rng.integers(1, 6))          # k = 1: a 3-D mask with a single layer
+                    layers = [M] if k == 1 else partition(rng, M, k, interleave=bool(rng.integers(0, 2)))
+                    if k == 1 and not _ok_layer(M): continue
                     if layers is None: continue
                 else:
                     k = int(rng.integers(2, 4))
